@@ -157,8 +157,30 @@ def member_name(n: dict) -> Optional[str]:
     return None
 
 
+# canonical member name (as written in today's support headers) -> the name it has in the analysed tree.  Filled by
+# selector_asts() from the field declarations BY TYPE, so that a rename of a member does not disturb the rules.
+ROLE_NAMES: Dict[str, str] = {}
+
+
 def refers_to_member(n: dict, name: str) -> bool:
+    name = ROLE_NAMES.get(name, name)
     return any(kind(x) == 'MemberExpr' and x.get('name') == name for x in walk_json(n))
+
+
+def _field_roles(objs: List[dict], cls_name: str, rules: List[Tuple[str, Any]]) -> Dict[str, str]:
+    """role -> field name, for the fields of the instantiated class whose type satisfies the role's predicate (exactly one)."""
+    out: Dict[str, str] = {}
+    for o in objs:
+        for n in walk_json(o):
+            if kind(n) == 'ClassTemplateSpecializationDecl' and n.get('name') == cls_name:
+                fields = [f for f in n.get('inner', []) or [] if kind(f) == 'FieldDecl']
+                for role, pred in rules:
+                    hits = [f.get('name') for f in fields if pred((f.get('type') or {}).get('qualType', ''))]
+                    if len(hits) == 1:
+                        out[role] = hits[0]
+                if out:
+                    return out
+    return out
 
 
 def method_decls(objs: List[dict], cls_name: str, want_instantiated: bool = True) -> Dict[str, dict]:
@@ -307,6 +329,16 @@ def selector_asts(ctx):
             sc.write(v['filename'], v['contents'])
         sel = clang_ast(sc, 'sel.cc', tu, 'MultiClientSelector')
         mw = clang_ast(sc, 'mw.cc', tu, 'MutexWrapped')
+    ROLE_NAMES.clear()
+    ROLE_NAMES.update(_field_roles(sel, 'MultiClientSelector', [
+        ('m_clients', lambda t: t.startswith('std::map<')),
+        ('m_finalConstructed', lambda t: t == 'bool'),
+        ('m_clientSelect', lambda t: 'MutexWrapped<' in t),
+    ]))
+    ROLE_NAMES.update(_field_roles(mw, 'MutexWrapped', [
+        ('m_mutex', lambda t: t.endswith('std::mutex') or t == 'std::mutex'),
+        ('m_protectee', lambda t: 'mutex' not in t),
+    ]))
     return sel, mw, hs
 
 
@@ -458,10 +490,11 @@ def _c11_rules(ctx, methods: Dict[str, dict], sel: List[dict], mw: List[dict]):
     # ---- C11.guarded: MutexWrapped ----------------------------------------------------------------------------------
     mmeth = method_decls(mw, 'MutexWrapped')
     fields = field_decls(mw, 'MutexWrapped')
-    if 'operator()' not in mmeth or 'm_protectee' not in fields:
+    PROT, MTX = ROLE_NAMES.get('m_protectee', 'm_protectee'), ROLE_NAMES.get('m_mutex', 'm_mutex')
+    if 'operator()' not in mmeth or PROT not in fields:
         run.error('C11.guarded', mod_m, 'MutexWrapped', 'operator() / m_protectee', 'MutexWrapped shape not recognised')
         return
-    ok = fields['m_protectee'].get('_access') == 'private' and fields.get('m_mutex', {}).get('_access') == 'private'
+    ok = fields[PROT].get('_access') == 'private' and fields.get(MTX, {}).get('_access') == 'private'
     run.add('C11.guarded', mod_m, 'MutexWrapped', 'm_protectee / m_mutex access', ok,
             'the protected value and its mutex are private' if ok else 'the protected value or its mutex is accessible without the lock')
     op = body_of(mmeth['operator()'])
@@ -486,7 +519,7 @@ def _c11_rules(ctx, methods: Dict[str, dict], sel: List[dict], mw: List[dict]):
     for name, m in mmeth.items():
         if name == 'operator()':
             continue
-        if any(kind(x) == 'MemberExpr' and x.get('name') == 'm_protectee' for x in walk_json(body_of(m) or {})):
+        if any(kind(x) == 'MemberExpr' and x.get('name') == PROT for x in walk_json(body_of(m) or {})):
             leaks.append(name)
     run.add('C11.guarded', mod_m, 'MutexWrapped', 'other accesses to m_protectee', not leaks,
             'm_protectee is reachable only through operator()' if not leaks else f'm_protectee is also accessed by {leaks} without the lock')
@@ -507,8 +540,9 @@ def _c11_rules(ctx, methods: Dict[str, dict], sel: List[dict], mw: List[dict]):
                         'the deleter never unlocks' if not unlocks else 'the deleter unlocks without checking ownership'))
     # ---- selector: the selection is only reachable through the mutex wrapper -------------------------------------------------------
     sfields = field_decls(sel, 'MultiClientSelector')
-    t = sfields.get('m_clientSelect', {}).get('type', {}).get('qualType', '')
-    ok = 'MutexWrapped<' in t and sfields.get('m_clientSelect', {}).get('_access') == 'private'
+    SEL = ROLE_NAMES.get('m_clientSelect', 'm_clientSelect')
+    t = sfields.get(SEL, {}).get('type', {}).get('qualType', '')
+    ok = 'MutexWrapped<' in t and sfields.get(SEL, {}).get('_access') == 'private'
     run.add('C11.guarded', mod_s, 'MultiClientSelector', f'm_clientSelect : {t[:60]}', ok,
             'the selection is a private MutexWrapped value' if ok else 'the current selection is not protected by MutexWrapped')
     # no method returns a reference / pointer to the optional itself
